@@ -26,5 +26,5 @@ EmitHeader ==
                        maxhits |-> MaxHitsSet,
                        grids |-> [k \in GridKinds |-> [i \in 1 .. 48 |-> Time(k, i)]]]))
 EmitPattern == Ready => PrintT(ToJson([g |-> g]))
-EmitLong == (Len(g) = MaxN) => PrintT(ToJson([g |-> g]))
+EmitLong == (Ready /\ Len(g) >= 8) => PrintT(ToJson([g |-> g]))
 =============================================================================
